@@ -8,9 +8,11 @@ Pipeline:
       is the one the code follows (binding of the model parameter, like the order tables of the WM components)
    3. TLC model-checks GC.tla with that variant: capacities {1,2,4}, <= 4 retirements, <= 2 regions opening /
       closing at arbitrary points, stop() at an arbitrary point
-   Hypothesis H2 (DESIGN 6): `while (running)` drops consumed tasks that share a batch with the stop marker while
-   a region is open -> witness class "region open during stop()" (known_findings.json); any other witness of any
-   clause is a VIOLATION.
+   Programs: one owner thread (retire*, stop, destructor), region threads, and 1-2 further threads retiring concurrently
+   (also from inside their own region): unsorted batches, contended tickets, consumes spanning the ring wrap.
+   When L2 conformance drifts the drifting + stress programs are explored much harder (L1 verdicts only).
+   Hypothesis H2 (DESIGN 6, fixed in /repo by bf4ef2a): `while (running)` drops consumed tasks that share a batch with
+   the stop marker while a region is open -> witness class "region open during stop()", reported separately.
 """
 import json
 import os
@@ -87,14 +89,14 @@ def bad_of(detail):
 
 
 def variant_cfg(name, drain):
-    """model-checking config for the loop variant the code follows (the committed ones are Drain = FALSE)"""
+    """model-checking config for the loop variant the code follows (the committed ones are Drain = TRUE = /repo HEAD)"""
     src = os.path.join(SPEC, "mc", name)
-    if not drain:
+    if drain:
         return src
     d = os.path.join(vlib.BUILD, "gen", "gc_cfg")
     os.makedirs(d, exist_ok=True)
-    dst = os.path.join(d, name.replace(".cfg", "_drain.cfg"))
-    open(dst, "w").write(open(src).read().replace("Drain = FALSE", "Drain = TRUE"))
+    dst = os.path.join(d, name.replace(".cfg", "_nodrain.cfg"))
+    open(dst, "w").write(open(src).read().replace("Drain = TRUE", "Drain = FALSE"))
     return dst
 
 
@@ -103,121 +105,168 @@ def run(pid, tier, seed, replay=None):
     rng = random.Random(seed * 7919 + 10)
     vlib.build([DRIVER])
     tdir = os.path.join(vlib.BUILD, "traces")
+    quick = tier == "quick"
+    mon = os.path.join(SPEC, "GC_Mon.tla")
+    trc = os.path.join(SPEC, "GC_Trace.tla")
+    mon_cfg = os.path.join(SPEC, "mc", "GC_Mon.cfg")
+    monh2_cfg = os.path.join(SPEC, "mc", "GC_MonH2.cfg")
 
-    # model checking of the loop variant of the pinned commit starts right away (re-done if the code follows the other one)
-    suffix = "_q" if tier == "quick" else ""
+    # model checking of the loop variant of /repo HEAD starts right away (re-done if the code follows the other one)
+    suffix = "_q" if quick else ""
     mcs = [("safety", "GC_safety%s.cfg" % suffix), ("stop", "GC_stop%s.cfg" % suffix)]
-    if tier == "thorough":
+    if not quick:
         mcs.append(("live", "GC_live.cfg"))
-    mc_timeout = 1700 if tier == "thorough" else 300
+    mc_timeout = 300 if quick else 1700
     mc_pool = ThreadPoolExecutor(4)
     spec_runs = {}
     if not replay:
         for name, cfg in mcs:
-            spec_runs[name] = mc_pool.submit(vlib.tlc, os.path.join(SPEC, "MC_GC.tla"), variant_cfg(cfg, False), cache=True, extra_hash="drain=False", timeout=mc_timeout, heap="16g",
+            spec_runs[name] = mc_pool.submit(vlib.tlc, os.path.join(SPEC, "MC_GC.tla"), variant_cfg(cfg, True), cache=True, extra_hash="drain=True", timeout=mc_timeout, heap="16g",
                                              workers=max(2, vlib.NCPU // 2))
             time.sleep(0.3)
 
+    status = {}
+
+    def add_status(s):
+        for k, v in s.items():
+            status[k] = status.get(k, 0) + v
+
     if replay:
         key = json.load(open(replay))
-        execs, status = [rerun(key["exec"])], {}
+        execs = [rerun(key["exec"])]
     else:
-        nseeds = 6 if tier == "quick" else 60
-        nrand = 14 if tier == "quick" else 120
-        execs, status = record(gc.FIXED, (seed * 1000 + 1, seed * 1000 + 1 + nseeds), "mix", os.path.join(tdir, pid + "_fixed"))
-        rprogs = [gc.gen_program(rng) for _ in range(nrand)]
-        e2, s2 = record(rprogs, (seed * 1000 + 1, seed * 1000 + (4 if tier == "quick" else 9)), "mix", os.path.join(tdir, pid + "_rand"))
+        base = seed * 1000 + 1
+        execs, s1 = record(gc.FIXED, (base, base + (4 if quick else 40)), "mix", os.path.join(tdir, pid + "_fixed"))
+        add_status(s1)
+        # several retiring threads: more schedules per program (the interesting interleavings put one retire() between the
+        # tick and the push of another, or a lock + retire between two steps of the collector)
+        e1, s1 = record(gc.MULTI, (base, base + (10 if quick else 120)), "mix", os.path.join(tdir, pid + "_multi"))
+        execs += e1
+        add_status(s1)
+        rprogs = [gc.gen_program(rng) for _ in range(12 if quick else 120)]
+        e2, s2 = record(rprogs, (base, base + (3 if quick else 8)), "mix", os.path.join(tdir, pid + "_rand"))
         execs += e2
-        e3, s3 = record(gc.PB, (1, 2), "pb", os.path.join(tdir, pid + "_pb"), extra=["--pb-bound", "2" if tier == "quick" else "3", "--max-execs", "40" if tier == "quick" else "600"])
+        add_status(s2)
+        e3, s3 = record(gc.PB, (1, 2), "pb", os.path.join(tdir, pid + "_pb"), extra=["--pb-bound", "2" if quick else "3", "--max-execs", "45" if quick else "800"])
         execs += e3
-        for s in (s2, s3):
-            for k, v in s.items():
-                status[k] = status.get(k, 0) + v
+        add_status(s3)
     V.extra["executions"] = len(execs)
     V.extra["record_wall_s"] = round(time.time() - V.t0, 1)
-    V.extra["exec_status"] = status
 
-    mon = os.path.join(SPEC, "GC_Mon.tla")
-    trc = os.path.join(SPEC, "GC_Trace.tla")
+    h2_witness = [None]
+    l1_info = {"accepted": 0, "issues": 0, "tlc_states": 0, "wall_s": 0.0, "unchecked": 0}
+
+    def judge_l1(batch, tag, results=None):
+        """every execution against the L1 monitor: all clauses except the witness class H2, then the first H2 witness"""
+        mlines = [gc.monitor_lines(ex) for ex in batch]
+        if results is None:
+            results = (ec.check_traces(mon, mon_cfg, mlines, pid + "_L1" + tag, 4), ec.check_traces(mon, monh2_cfg, mlines, pid + "_L1h2" + tag, 1))
+        (acc1, issues1, st1), (_, issues_h2, st_h2) = results
+        V.cov["transitions"] += st1["states"] + st_h2["states"]
+        l1_info["accepted"] += acc1
+        l1_info["issues"] += len(issues1)
+        l1_info["tlc_states"] += st1["states"]
+        l1_info["wall_s"] = round(l1_info["wall_s"] + st1["wall"], 1)
+        l1_info["unchecked"] += st1["unchecked"]
+        for iss in issues1:
+            ex = batch[iss.exec_index]
+            key = exec_key(ex)
+            if iss.kind == "rejected":
+                raise vlib.Broken("L1 monitor rejected a trace (monitors must accept every well-formed trace): %s" % iss.detail)
+            names = [b for b in bad_of(iss.detail) if b != H2] or ["Holds"]
+            what = names[0]
+            if what == "Protocol":
+                raise vlib.Broken("driver bookkeeping disagrees with its events in %s" % json.dumps(key))
+            if not replay:
+                ex2 = rerun(key)
+                _, iss2, _ = ec.check_traces(mon, mon_cfg, [gc.monitor_lines(ex2)], pid + "_re") if ex2 else (0, [], {})
+                if not iss2:
+                    raise vlib.Broken("violation %s did not reproduce on re-execution of %s" % (what, json.dumps(key)))
+            rp = vlib.save_replay(pid, "L1_%s_%d%s.json" % (what, iss.exec_index, tag), {"exec": key, "clause": what, "layer": "L1", "line": iss.line, "trace": ex[:400]})
+            V.violation("%s violated on an execution of the real code (L1 layer) prog=%s cap=%s seed=%s strategy=%s" % (what, key["params"].get("prog"), key["params"].get("cap"), key["seed"], key["strategy"]), rp)
+        for iss in issues_h2:
+            if iss.kind == "rejected":
+                raise vlib.Broken("L1 monitor rejected a trace: %s" % iss.detail)
+            if H2 in bad_of(iss.detail) and h2_witness[0] is None:
+                ex = batch[iss.exec_index]
+                key = exec_key(ex)
+                if not replay:
+                    ex2 = rerun(key)
+                    _, iss2, _ = ec.check_traces(mon, monh2_cfg, [gc.monitor_lines(ex2)], pid + "_re") if ex2 else (0, [], {})
+                    if not iss2:
+                        raise vlib.Broken("H2 witness did not reproduce on re-execution of %s" % json.dumps(key))
+                h2_witness[0] = key
+                rp = vlib.save_replay(pid, "L1_H2_%d%s.json" % (iss.exec_index, tag), {"exec": key, "clause": H2, "layer": "L1", "line": iss.line, "trace": ex[:400]})
+                V.violation("%s on an execution of the real code (L1 layer): reclaimers retired before stop() were never invoked, also not by the destructor; prog=%s cap=%s seed=%s" % (H2_TEXT, key["params"].get("prog"), key["params"].get("cap"), key["seed"]), rp)
+        return acc1
+
     mlines = [gc.monitor_lines(ex) for ex in execs]
     tlines = [gc.normalise(ex) for ex in execs]
     with ThreadPoolExecutor(3) as pool:
-        f_l1 = pool.submit(ec.check_traces, mon, os.path.join(SPEC, "mc", "GC_Mon.cfg"), mlines, pid + "_L1", 4)
+        f_l1 = pool.submit(ec.check_traces, mon, mon_cfg, mlines, pid + "_L1", 4)
         time.sleep(0.2)
-        f_h2 = pool.submit(ec.check_traces, mon, os.path.join(SPEC, "mc", "GC_MonH2.cfg"), mlines, pid + "_L1h2", 1)
+        f_h2 = pool.submit(ec.check_traces, mon, monh2_cfg, mlines, pid + "_L1h2", 1)
         time.sleep(0.2)
-        f_l2 = pool.submit(ec.check_traces, trc, os.path.join(SPEC, "mc", "GC_Trace.cfg"), tlines, pid + "_L2", 2)
+        f_l2 = pool.submit(ec.check_traces, trc, os.path.join(SPEC, "mc", "GC_TraceDrain.cfg"), tlines, pid + "_L2d", 3)
         l1, h2, l2 = f_l1.result(), f_h2.result(), f_l2.result()
+    acc_l1 = judge_l1(execs, "", (l1, h2))
 
-    # ---- L1: every clause except the known witness class, on every execution
-    acc1, issues1, st1 = l1
-    V.cov["transitions"] += st1["states"]
-    V.extra["trace_L1"] = {"accepted": acc1, "issues": len(issues1), "tlc_states": st1["states"], "wall_s": round(st1["wall"], 1), "unchecked": st1["unchecked"]}
-    for iss in issues1:
-        ex = execs[iss.exec_index]
-        key = exec_key(ex)
-        if iss.kind == "rejected":
-            raise vlib.Broken("L1 monitor rejected a trace (monitors must accept every well-formed trace): %s" % iss.detail)
-        names = [b for b in bad_of(iss.detail) if b != H2] or ["Holds"]
-        what = names[0]
-        if what == "Protocol":
-            raise vlib.Broken("driver bookkeeping disagrees with its events in %s" % json.dumps(key))
-        if not replay:
-            ex2 = rerun(key)
-            _, iss2, _ = ec.check_traces(mon, os.path.join(SPEC, "mc", "GC_Mon.cfg"), [gc.monitor_lines(ex2)], pid + "_re") if ex2 else (0, [], {})
-            if not iss2:
-                raise vlib.Broken("violation %s did not reproduce on re-execution of %s" % (what, json.dumps(key)))
-        rp = vlib.save_replay(pid, "L1_%s_%d.json" % (what, iss.exec_index), {"exec": key, "clause": what, "layer": "L1", "line": iss.line, "trace": ex[:400]})
-        V.violation("%s violated on an execution of the real code (L1 layer) prog=%s cap=%s seed=%s" % (what, key["params"].get("prog"), key["params"].get("cap"), key["seed"]), rp)
-    # ---- L1: first witness of the class "region open during stop()" (hypothesis H2)
-    _, issues_h2, st_h2 = h2
-    V.cov["transitions"] += st_h2["states"]
-    h2_witness = None
-    for iss in issues_h2:
-        if iss.kind == "rejected":
-            raise vlib.Broken("L1 monitor rejected a trace: %s" % iss.detail)
-        if H2 in bad_of(iss.detail):
-            ex = execs[iss.exec_index]
-            key = exec_key(ex)
-            if not replay:
-                ex2 = rerun(key)
-                _, iss2, _ = ec.check_traces(mon, os.path.join(SPEC, "mc", "GC_MonH2.cfg"), [gc.monitor_lines(ex2)], pid + "_re") if ex2 else (0, [], {})
-                if not iss2:
-                    raise vlib.Broken("H2 witness did not reproduce on re-execution of %s" % json.dumps(key))
-            h2_witness = key
-            rp = vlib.save_replay(pid, "L1_H2_%d.json" % iss.exec_index, {"exec": key, "clause": H2, "layer": "L1", "line": iss.line, "trace": ex[:400]})
-            V.violation("%s on an execution of the real code (L1 layer): reclaimers retired before stop() were never invoked, also not by the destructor; prog=%s cap=%s seed=%s" % (H2_TEXT, key["params"].get("prog"), key["params"].get("cap"), key["seed"]), rp)
-    V.extra["h2_witness"] = h2_witness
-
-    # ---- L2 conformance, per loop variant
+    # ---- L2 conformance, per loop variant (Drain = TRUE is /repo HEAD; FALSE the originally pinned commit)
     acc2, issues2, st2 = l2
     V.cov["transitions"] += st2["states"]
-    drain = False
+    drain = True
     rej = [i for i in issues2 if i.kind == "rejected"]
-    info = {"Drain=FALSE": {"accepted": acc2, "rejected": len(rej), "unchecked": st2["unchecked"], "tlc_states": st2["states"], "wall_s": round(st2["wall"], 1)}}
+    info = {"Drain=TRUE": {"accepted": acc2, "rejected": len(rej), "unchecked": st2["unchecked"], "tlc_states": st2["states"], "wall_s": round(st2["wall"], 1)}}
     if rej:
-        acc3, issues3, st3 = ec.check_traces(trc, os.path.join(SPEC, "mc", "GC_TraceDrain.cfg"), tlines, pid + "_L2d", 6)
+        acc3, issues3, st3 = ec.check_traces(trc, os.path.join(SPEC, "mc", "GC_Trace.cfg"), tlines, pid + "_L2", 3)
         V.cov["transitions"] += st3["states"]
         rej3 = [i for i in issues3 if i.kind == "rejected"]
-        info["Drain=TRUE"] = {"accepted": acc3, "rejected": len(rej3), "unchecked": st3["unchecked"], "tlc_states": st3["states"], "wall_s": round(st3["wall"], 1)}
-        if not rej3:
-            drain, acc2, issues2, rej = True, acc3, issues3, rej3
-            log("NOTE: the collector loop of the code under test keeps going until every consumed task is reclaimed (variant Drain = TRUE)")
-        elif len(rej3) < len(rej):
-            drain, acc2, issues2, rej = True, acc3, issues3, rej3
+        info["Drain=FALSE"] = {"accepted": acc3, "rejected": len(rej3), "unchecked": st3["unchecked"], "tlc_states": st3["states"], "wall_s": round(st3["wall"], 1)}
+        if len(rej3) < len(rej):
+            drain, acc2, issues2, rej = False, acc3, issues3, rej3
+            if not rej3:
+                log("NOTE: the collector loop of the code under test ends as soon as the stop marker is consumed (variant Drain = FALSE, `while (running)`)")
     V.extra["trace_L2"] = info
     V.extra["loop_variant_drain"] = drain
+    drifting = []
     for iss in issues2:
         ex = execs[iss.exec_index]
         key = exec_key(ex)
         if iss.kind == "rejected":
             V.drift += 1
+            drifting.append(key)
             log("SPEC-DRIFT component=garbage_collector exec=%s seed=%s line=%d %s" % (json.dumps(key["params"]), key["seed"], iss.line, iss.detail))
             continue
         clause = iss.kind.split(":", 1)[1].lstrip("T")
         rp = vlib.save_replay(pid, "L2_%s_%d.json" % (clause, iss.exec_index), {"exec": key, "clause": clause, "layer": "L2", "line": iss.line, "trace": ex[:400]})
         V.violation("%s violated on an execution of the real code (L2 layer) prog=%s cap=%s seed=%s" % (clause, key["params"].get("prog"), key["params"].get("cap"), key["seed"]), rp)
-    V.cov["traces_validated_against_impl"] = acc1 + acc2
+
+    # ---- drift-guided intensification: where the code no longer follows the L2 specification the model's exhaustive
+    # exploration no longer speaks for it, so the real code is explored much harder (drifting programs + the stress
+    # programs with several retirers; L1 verdicts only)
+    if drifting and not replay and not V.violations:
+        progs = []
+        for key in drifting:
+            p = key["params"]
+            t = (p["prog"], int(p["cap"]), int(p["nreg"]), int(p["style"]))
+            if t not in progs:
+                progs.append(t)
+        progs = progs[:2] + [t for t in gc.STRESS if t not in progs[:2]]
+        base = seed * 1000 + 500
+        extra, sx = record(progs, (base, base + (120 if quick else 1500)), "mix", os.path.join(tdir, pid + "_driftmix"))
+        add_status(sx)
+        e5, s5 = record(progs, (1, 2), "pb", os.path.join(tdir, pid + "_driftpb"), extra=["--pb-bound", "3", "--max-execs", "500" if quick else "8000"])
+        add_status(s5)
+        extra += e5
+        V.extra["drift_guided_executions"] = len(extra)
+        V.extra["drift_guided_programs"] = [t[0] for t in progs]
+        log("NOTE: L2 conformance drifted: %d further executions of %d programs judged by the L1 monitor" % (len(extra), len(progs)))
+        acc_l1 += judge_l1(extra, "_dg")
+        execs += extra
+    V.extra["trace_L1"] = l1_info
+    V.extra["h2_witness"] = h2_witness[0]
+    V.extra["exec_status"] = status
+    V.cov["traces_validated_against_impl"] = acc_l1 + acc2
     V.extra["l2_conformant"] = V.drift == 0
     for ex in execs[:2]:
         V.sample({"program": ex[0]["params"], "strategy": ex[0]["strategy"], "events": len(ex), "first_events": ex[1:8]})
@@ -225,7 +274,7 @@ def run(pid, tier, seed, replay=None):
     # ---- TLC on the L2 model with the loop variant the code follows
     if not replay:
         for name, cfg in mcs:
-            if not drain:
+            if drain:
                 r = spec_runs[name].result()
             else:
                 r = vlib.tlc(os.path.join(SPEC, "MC_GC.tla"), variant_cfg(cfg, drain), cache=True, extra_hash="drain=%s" % drain, timeout=mc_timeout, heap="16g")
@@ -239,9 +288,8 @@ def run(pid, tier, seed, replay=None):
                 continue
             rp = vlib.save_replay(pid, "tlc_%s_%s.txt" % (name, r.violation), "loop variant Drain=%s\n\n%s" % (drain, r.error_trace))
             if name == "stop" and r.violation == "AllReclaimedAlsoWhenRegionOpenDuringStop":
-                if h2_witness is None:
-                    # the variant Drain = FALSE is only the default: no execution told the two loops apart
-                    log("NOTE: the model with `while (running)` violates AllReclaimedWhenStopReturns, but no recorded execution distinguishes the loop variants - not counted")
+                if h2_witness[0] is None:
+                    log("NOTE: the model with `while (running)` violates AllReclaimedWhenStopReturns, but no recorded execution shows that witness - not counted")
                     continue
                 V.violation("%s in the L2 model %s (collector loop `while (running)` as executed by the code: the loop ends with consumed tasks still waiting for a region)" % (H2_TEXT, cfg), rp)
             else:
@@ -249,8 +297,8 @@ def run(pid, tier, seed, replay=None):
         V.cov["exhaustive"] = True
     V.assumptions += [
         "abstract epoch (atomic tick; a region = version read + publication; low_water_mark = any value a slot-by-slot scan can produce) - justified by C09",
-        "abstract bounded queue (FIFO tickets, write when the slot is free, consumer takes a published prefix <= batch, frees slots afterwards) - justified by C01/C02",
-        "retire() concurrent with or after stop() and stop() from inside one's own critical region are outside the contract and not generated",
+        "abstract bounded queue (FIFO tickets, write when the slot is free, consumer takes a published prefix <= batch in up to two ring segments, frees slots afterwards) - justified by C01/C02",
+        "retire() concurrent with or after stop(), stop() from inside one's own critical region, more retirements inside one's own region than queue + one batch hold, and destroying the collector under an open region are outside the contract and not generated",
         "executions are serialised by vsched; time is virtual (usleep of the collector = timer)",
     ]
     return V.finish()
